@@ -14,6 +14,8 @@ prop("C06",
                 "of API truth changes, lister syncs, Filter, Bind and configuration RELOADS (a reload that goes through empties the "
                 "node-subnet cache, fact reloadClearsNodeSubnetCache), so the theorems apply after reloads that change node subnets; "
                 "stale_cache_after_reload_counter = what fails if the cache survived a reload. "
+                "incoherent_store_counter: the hypothesis Coherent (store = memory, C05 / first conjunct of the plugin invariant) is "
+                "necessary - a store object for an address the cache lists as free makes every bind on the approved node fail. "
                 "Counter theorems with concrete witnesses: bound_ip_routable_counter (hypothesis AtMostOneWithoutRanges is "
                 "necessary as the code stands; reproduces on the real code = fixed since: ByKeyAndIPRanges(key,nil) sorted), filter_then_bind_overlap_counter "
                 "(overlapping ranges = the documented TODO of ipam_crd.go, outside the property's quantifier), d7_reseed_counter "
@@ -37,7 +39,10 @@ prop("C06",
                "correspondence of every history (results, observed choices, full digests) of the REAL FloatingIPPlugin with "
                "gxdrv_plugin + 30% of the cases insert warm-up Filter -> reload through the real updateConfigMap path (node subnet "
                "widened / narrowed / moved to another pool / removed) before the target, judged against the NEW configuration "
-               "(signatures get the suffix :after-reload) + monitor of the five statements on real outputs: real Filter, then real Bind on EVERY approved node "
+               "(signatures get the suffix :after-reload) + 20% of the cases put ONE injected apiserver fault into the PREFIX history (failing Create of the 2nd+ address of a "
+               "multi-range bind, failing Get/Update of filter's re-key, failing Delete of a release, reload with a failing Delete), "
+               "the judged filter -> bind stay fault-free (signatures get the suffix :after-fault) "
+               "+ monitor of the five statements on real outputs: real Filter, then real Bind on EVERY approved node "
                "(fresh world per node, same deterministic prefix) and on a rejected candidate; thorough: all allocation states of "
                "a 2-pool x 3-address topology x all requests of <= 3 disjoint range lists out of a menu of 6 x 3 nodes",
      factgen=["plugin", "c06"],
